@@ -34,8 +34,30 @@ type hintStore struct {
 
 var counterRE = regexp.MustCompile(`![0-9]+`)
 
+// SSA register names (t12@34) are renumbered by any edit of the function: they are normalised away too, so that a hint
+// survives harmless edits. Collisions only make a hint select more hypotheses.
+var registerRE = regexp.MustCompile(`(^|[^A-Za-z0-9_.])t[0-9]+`)
+var blockNameRE = regexp.MustCompile(`([!@])b[0-9]+`)
+var registerVerRE = regexp.MustCompile(`(^|[^A-Za-z0-9_.])t@[0-9]+`)
+var registerNameRE = regexp.MustCompile(`\bt[0-9]+\b`)
+
+// normKey: obligation name with register numbers and source columns removed
+var posRE = regexp.MustCompile(`:[0-9]+:[0-9]+`)
+var blockRE = regexp.MustCompile(`@b[0-9]+`)
+
+func normKey(name string) string {
+	s := registerNameRE.ReplaceAllString(name, "t")
+	s = posRE.ReplaceAllString(s, "") // source line:column of a cut point
+	s = blockRE.ReplaceAllString(s, "@b") // SSA block numbers
+	return s
+}
+
 func hashAssert(line string) string {
 	s := counterRE.ReplaceAllString(line, "!")
+	s = registerRE.ReplaceAllString(s, "${1}t")
+	s = registerVerRE.ReplaceAllString(s, "${1}t@")
+	s = blockNameRE.ReplaceAllString(s, "${1}b")
+	s = counterRE.ReplaceAllString(s, "!")
 	h := sha1.Sum([]byte(s))
 	return hex.EncodeToString(h[:6])
 }
@@ -56,11 +78,44 @@ func (hs *hintStore) get(name string) map[string]bool {
 	defer hs.mu.Unlock()
 	l, ok := hs.hints[name]
 	if !ok {
+		// the same obligation under renumbered registers
+		nk := normKey(name)
+		for k, v := range hs.hints {
+			if normKey(k) == nk {
+				l, ok = v, true
+				break
+			}
+		}
+	}
+	if !ok {
 		return nil
 	}
 	m := map[string]bool{}
 	for _, h := range l {
 		m[h] = true
+	}
+	return m
+}
+
+// getUnion: every hypothesis any obligation of the function ever needed (fallback when the obligation itself has no
+// usable hint, e.g. after an edit that added or reordered obligations)
+func (hs *hintStore) getUnion(fn string) map[string]bool {
+	if hs == nil {
+		return nil
+	}
+	hs.mu.Lock()
+	defer hs.mu.Unlock()
+	m := map[string]bool{}
+	prefix := fn + "#"
+	for k, v := range hs.hints {
+		if strings.HasPrefix(k, prefix) {
+			for _, h := range v {
+				m[h] = true
+			}
+		}
+	}
+	if len(m) == 0 {
+		return nil
 	}
 	return m
 }
